@@ -76,6 +76,13 @@ class Program:
             self._graphs[k] = EntryGraph(self.crates[crate], entry)
         return self._graphs[k]
 
+    def graph_at(self, crate, inst_key, label=None):
+        """graph rooted at an arbitrary (non-entry) function instance of a crate"""
+        k = (crate, '@' + inst_key)
+        if k not in self._graphs:
+            self._graphs[k] = EntryGraph(self.crates[crate], label or inst_key.split('::')[-1], root_key=inst_key)
+        return self._graphs[k]
+
     def all_entries(self):
         for cn, c in self.crates.items():
             for e in sorted(c.entries):
@@ -348,10 +355,10 @@ def is_client_stub(term):
 class EntryGraph:
     MAX_CTX = 20000
 
-    def __init__(self, crate, entry):
+    def __init__(self, crate, entry, root_key=None):
         self.crate = crate
         self.entry = entry
-        self.root_key = crate.entries[entry]
+        self.root_key = root_key or crate.entries[entry]
         self.ctxs = []
         self._term_cache = {}
         self._mu_seen = set()
